@@ -104,28 +104,42 @@ def closeCur (r : RS) : RS :=
   | none => r
   | some c => { r with cur := none, amp := false, done := (r.block, c) :: r.done }
 
+/-- a data line that starts a card: (card so far, does its data end in `&`?) -/
+def startCard (ln : Str) : Card × Bool :=
+  let dc := splitDollar ln
+  let da := stripAmp dc.1
+  (⟨da.1, (match dc.2 with | some t => [rstrip (lstrip t)] | none => []), []⟩, da.2)
+
+/-- text of a comment card without its `c` -/
+def commentText (ln : Str) : Str := lstrip (rstrip ((lstrip ln).drop 1))
+
+/-- a further line of an open card: a comment card is kept as such, a data line is appended -/
+def contStep (k : Card × Bool) (ln : Str) : Card × Bool :=
+  if isCommentCard ln then ({ k.1 with ccomments := k.1.ccomments ++ [commentText ln] }, k.2)
+  else
+    let n := startCard ln
+    ({ k.1 with text := k.1.text ++ ' ' :: n.1.text, dollar := k.1.dollar ++ n.1.dollar }, n.2)
+
 def stepLine (r : RS) (ln : Str) : RS :=
   if r.block ≥ 3 then r
   else if isBlankLine ln then
     let r := closeCur r
     { r with block := r.block + 1 }
-  else if isCommentCard ln then
-    let txt := rstrip ((lstrip ln).drop 1)
-    match r.cur with
-    | some c => { r with cur := some { c with ccomments := c.ccomments ++ [lstrip txt] } }
-    | none => { r with heads := (r.block, lstrip txt) :: r.heads }
   else
-    let (dat, com) := splitDollar ln
-    let (dat, amp) := stripAmp dat
-    let coms := match com with | some t => [rstrip (lstrip t)] | none => []
     match r.cur with
     | some c =>
-      if r.amp || isIndented ln then
-        { r with cur := some { c with text := c.text ++ ' ' :: dat, dollar := c.dollar ++ coms }, amp := amp }
+      if isCommentCard ln || r.amp || isIndented ln then
+        let k := contStep (c, r.amp) ln
+        { r with cur := some k.1, amp := k.2 }
       else
         let r := closeCur r
-        { r with cur := some ⟨dat, coms, []⟩, amp := amp }
-    | none => { r with cur := some ⟨dat, coms, []⟩, amp := amp }
+        let k := startCard ln
+        { r with cur := some k.1, amp := k.2 }
+    | none =>
+      if isCommentCard ln then { r with heads := (r.block, commentText ln) :: r.heads }
+      else
+        let k := startCard ln
+        { r with cur := some k.1, amp := k.2 }
 
 def startsWithMessage (s : Str) : Bool := lowerS (s.take 8) = "message:".toList
 
@@ -135,24 +149,30 @@ def splitMessage : List Str → List Str × List Str
       let r := splitMessage t
       (l :: r.1, r.2)
 
-def blocks (limit : Nat) (raw : List Str) : Blocks :=
-  let ls := raw.map (physical limit)
-  let (msg, rest) := match ls with
+/-- message block (if any), title line, body -/
+def splitFront (ls : List Str) : List Str × Str × List Str :=
+  let mr : List Str × List Str := match ls with
     | l :: _ => if startsWithMessage l then splitMessage ls else ([], ls)
     | [] => ([], [])
-  let (title, body) := match rest with
-    | t :: b => (rstrip t, b)
-    | [] => ([], [])
-  let r := closeCur (body.foldl stepLine ⟨0, none, false, [], []⟩)
-  let cards := r.done.reverse
-  let hs := r.heads.reverse
-  { message := msg.map rstrip, title := title,
-    head := (hs.filter (·.1 = 0)).map (·.2),
-    surfHead := (hs.filter (·.1 = 1)).map (·.2),
-    dataHead := (hs.filter (·.1 = 2)).map (·.2),
-    cells := (cards.filter (·.1 = 0)).map (·.2),
-    surfaces := (cards.filter (·.1 = 1)).map (·.2),
-    data := (cards.filter (·.1 = 2)).map (·.2) }
+  match mr.2 with
+  | t :: b => (mr.1, t, b)
+  | [] => (mr.1, [], [])
+
+def rs0 : RS := ⟨0, none, false, [], []⟩
+
+/-- the one-pass fold over the body lines -/
+def readBody (body : List Str) : RS := closeCur (body.foldl stepLine rs0)
+
+def tagged (k : Nat) (xs : List (Nat × α)) : List α := (xs.filter (fun x => x.1 = k)).map (·.2)
+
+def ofRS (msg : List Str) (title : Str) (r : RS) : Blocks :=
+  { message := msg.map rstrip, title := rstrip title,
+    head := tagged 0 r.heads.reverse, surfHead := tagged 1 r.heads.reverse, dataHead := tagged 2 r.heads.reverse,
+    cells := tagged 0 r.done.reverse, surfaces := tagged 1 r.done.reverse, data := tagged 2 r.done.reverse }
+
+def blocks (limit : Nat) (raw : List Str) : Blocks :=
+  let f := splitFront (raw.map (physical limit))
+  ofRS f.1 f.2.1 (readBody f.2.2)
 
 /-! ## words -/
 
